@@ -1,9 +1,12 @@
 package kit
 
 import (
+	"bytes"
 	"fmt"
 	"os"
+	"path/filepath"
 	"runtime"
+	"strconv"
 	"sync"
 	"sync/atomic"
 	"syscall"
@@ -20,7 +23,12 @@ import (
 // hung only when it has been running for wedgeAfter of wall time AND the whole process
 // then used (almost) no CPU for a further observation window; a merely slow or starved
 // run keeps consuming CPU and is left alone (it ends as "inconclusive" at the test
-// time-out, never as a violation).
+// time-out, never as a violation). "Used no CPU" alone is not enough on a badly overloaded
+// machine: a runnable thread may be given less than 30 ms in 3 s. The watchdog therefore
+// also requires that no thread of the process waited for a CPU during the window (sum of
+// the threads' run-queue delays from /proc/self/task/*/schedstat, at most 200 ms in 3 s);
+// a starved process fails that test and is left alone (sampling thread states was tried
+// and rejected: the sampler's own wake-ups make idle runtime threads look runnable).
 
 type wedgeState struct {
 	mu    sync.Mutex
@@ -45,6 +53,48 @@ func cpuTime() time.Duration {
 		return -1
 	}
 	return time.Duration(ru.Utime.Nano() + ru.Stime.Nano())
+}
+
+// runDelay sums the time the process's threads spent runnable but waiting for a CPU.
+// ok is false where the kernel does not provide schedstat.
+func runDelay() (d time.Duration, ok bool) {
+	files, _ := filepath.Glob("/proc/self/task/*/schedstat")
+	for _, f := range files {
+		b, err := os.ReadFile(f)
+		if err != nil {
+			continue
+		}
+		fs := bytes.Fields(b)
+		if len(fs) < 2 {
+			continue
+		}
+		n, err := strconv.ParseInt(string(fs[1]), 10, 64)
+		if err != nil {
+			continue
+		}
+		d += time.Duration(n)
+		ok = true
+	}
+	return d, ok
+}
+
+// quietWindow observes the process for d and reports whether it neither used CPU nor had
+// threads waiting for a CPU (a thread that is runnable but starved accumulates run-queue
+// delay at the rate of real time; an idle process accumulates a few milliseconds from the
+// runtime's own periodic wake-ups).
+func quietWindow(d time.Duration) bool {
+	c0 := cpuTime()
+	r0, rok := runDelay()
+	time.Sleep(d)
+	c1 := cpuTime()
+	r1, _ := runDelay()
+	if c0 < 0 || c1 < 0 || c1-c0 > 30*time.Millisecond {
+		return false
+	}
+	if rok && r1-r0 > 200*time.Millisecond {
+		return false
+	}
+	return true
 }
 
 func wedgeAfter() time.Duration {
@@ -85,13 +135,11 @@ func wedgeLoop() {
 		// observation window: 3 samples of 3 s, all (almost) idle, same case still running
 		idle := true
 		for i := 0; i < 3 && idle; i++ {
-			c0 := cpuTime()
-			time.Sleep(3 * time.Second)
-			c1 := cpuTime()
+			quiet := quietWindow(3 * time.Second)
 			wedge.mu.Lock()
 			same := wedge.gen == gen
 			wedge.mu.Unlock()
-			if !same || c0 < 0 || c1 < 0 || c1-c0 > 30*time.Millisecond {
+			if !same || !quiet {
 				idle = false
 			}
 		}
